@@ -53,25 +53,56 @@ TwoPassVar(s) == RDiv(TwoPassM2(s), SumW(s))
 SumWV2(s) == RSumSeq([i \in 1..Len(s) |-> RMul(s[i].w, RMul(s[i].v, s[i].v))])
 DirectVar(s) == RSub(RDiv(SumWV2(s), SumW(s)), RMul(WMean(s), WMean(s)))
 SubSamples(s, idx) == [k \in 1..Len(idx) |-> s[idx[k]]]    \* idx: sequence of sample indices
+\* zero weights: the statistics are those of the samples with positive weight, and are defined
+\* as soon as one weight is positive
+Defined(s)   == SumW(s) # RZero
+PosIdx(s)    == {i \in 1..Len(s) : s[i].w # RZero}
+RECURSIVE PosSamples(_)
+PosSamples(s) == IF s = <<>> THEN <<>>
+                 ELSE IF Head(s).w = RZero THEN PosSamples(Tail(s)) ELSE <<Head(s)>> \o PosSamples(Tail(s))
 
 (***************************************************************************)
 (* OnlineVariance: streaming accumulator (count, wcount, mean, M2).        *)
+(*                                                                         *)
+(* Weights are NON-NEGATIVE and may be EXACTLY ZERO (nested-sampling       *)
+(* weights that underflowed): a zero-weight sample is counted (`count`)    *)
+(* but must leave no other mark.  The update computes                      *)
+(*     W' = W + w,   mean' = mean + (w / W') (v - mean),                   *)
+(*     M2' = M2 + w (v - mean)(v - mean')                                  *)
+(* and w / W' is 0/0 when nothing has been weighed yet and w = 0.  That    *)
+(* case is an explicit branch of the specification:                        *)
+(*   guard = "guarded"    the 0/0 is intercepted: mean' = 0 * v, M2' = M2  *)
+(*                        (python floats raise ZeroDivisionError, which    *)
+(*                        update catches; sample_parameters shifts every   *)
+(*                        weight by 1e-300 so that W' is never 0)          *)
+(*   guard = "unguarded"  0/0 evaluates to NaN (numpy floats do not        *)
+(*                        raise): mean and M2 are NaN from then on         *)
+(* A NaN accumulator is the extended value NanVal; a finite one a rational.*)
 (***************************************************************************)
 Acc0 == [count |-> 0, wcount |-> RZero, mean |-> NoneV, M2 |-> NoneV]
-UpdAcc(a, v, w) ==
-    LET wc   == RAdd(a.wcount, w)                     \* weights are positive: wc # 0
+UpdAccG(guard, a, v, w) ==
+    LET wc   == RAdd(a.wcount, w)
         mold == IF a.mean = NoneV THEN RZero ELSE a.mean
         m2o  == IF a.mean = NoneV THEN RZero ELSE a.M2
-        mnew == RAdd(mold, RMul(RDiv(w, wc), RSub(v, mold)))
-    IN  [count |-> a.count + 1, wcount |-> wc, mean |-> mnew,
-         M2 |-> RAdd(m2o, RMul(w, RMul(RSub(v, mold), RSub(v, mnew))))]
-RECURSIVE FoldAcc(_, _, _)
-FoldAcc(a, s, k) == IF k > Len(s) THEN a ELSE FoldAcc(UpdAcc(a, s[k].v, s[k].w), s, k + 1)
+    IN  IF a.mean = NanVal \/ (wc = RZero /\ guard = "unguarded")
+        THEN [count |-> a.count + 1, wcount |-> wc, mean |-> NanVal, M2 |-> NanVal]
+        ELSE IF wc = RZero                                \* guarded 0/0: the sample leaves no mark
+        THEN [count |-> a.count + 1, wcount |-> wc, mean |-> RZero, M2 |-> m2o]
+        ELSE LET mnew == RAdd(mold, RMul(RDiv(w, wc), RSub(v, mold)))
+             IN  [count |-> a.count + 1, wcount |-> wc, mean |-> mnew,
+                  M2 |-> RAdd(m2o, RMul(w, RMul(RSub(v, mold), RSub(v, mnew))))]
+UpdAcc(a, v, w) == UpdAccG("guarded", a, v, w)
+RECURSIVE FoldAccG(_, _, _, _)
+FoldAccG(guard, a, s, k) == IF k > Len(s) THEN a ELSE FoldAccG(guard, UpdAccG(guard, a, s[k].v, s[k].w), s, k + 1)
+FoldAcc(a, s, k) == FoldAccG("guarded", a, s, k)
 
 \* what a rank hands to the gather: `variance` is the np.nan object when count < 2,
+\* M2 / wcount otherwise (NaN when the rank weighed nothing: 0/0 on arrays does not raise);
 \* the mean placeholder is the np.nan object when the rank never updated
-AccVar(a)  == IF a.count < 2 THEN NanObj ELSE Num(RDiv(a.M2, a.wcount))
-AccMean(a) == IF a.mean = NoneV THEN NanObj ELSE Num(a.mean)
+AccVar(a)  == IF a.count < 2 THEN NanObj
+              ELSE IF a.M2 = NanVal \/ a.wcount = RZero THEN NanVal
+              ELSE Num(RDiv(a.M2, a.wcount))
+AccMean(a) == IF a.mean = NoneV THEN NanObj ELSE IF a.mean = NanVal THEN NanVal ELSE Num(a.mean)
 Contribution(a) == [var |-> AccVar(a), mean |-> AccMean(a), wcount |-> a.wcount, count |-> a.count]
 SerC(c) == [var |-> Ser(c.var), mean |-> Ser(c.mean), wcount |-> c.wcount, count |-> c.count]
 
@@ -102,7 +133,8 @@ ParVar(test, g) == IF SumInt([q \in 1..Len(g) |-> g[q].count]) < 2
                    ELSE CombineOp(test, g)
 
 \* the single-process run: no communicator, gather is the identity, as-built code
-SerialRes(s) == ParVar("identity", <<Contribution(FoldAcc(Acc0, s, 1))>>)
+SerialResG(guard, s) == ParVar("identity", <<Contribution(FoldAccG(guard, Acc0, s, 1))>>)
+SerialRes(s) == SerialResG("guarded", s)
 
 (***************************************************************************)
 (* Partition of the sample list.  Python `lst[r0::stride]` over 0-based    *)
